@@ -121,7 +121,7 @@ func buildEntry(kind string, slot, w int) entry {
 
 // format policies: every one of them is the same PostScript token stream (white space between
 // tokens is free, hex strings are self-delimiting, hex digits are case-insensitive).
-var cmapFormats = []string{"lines", "crlf", "cr", "oneline", "secline", "nospace", "lowerhex", "indent", "dsc", "arrsplit", "arrnext"}
+var cmapFormats = []string{"lines", "crlf", "cr", "oneline", "secline", "nospace", "lowerhex", "indent", "dsc", "cssplit", "arrsplit", "arrnext"}
 
 func hexUnits(u []uint16, lower bool) string {
 	var b strings.Builder
@@ -234,7 +234,11 @@ func renderCMap(entries []entry, w int, format, secMode string, codespace bool) 
 	if codespace {
 		lo := "<" + hexCode(0, w, lower) + ">"
 		hi := "<" + hexCode(uint32(uint64(1)<<(8*uint(w))-1), w, lower) + ">"
-		if format == "nospace" {
+		if format == "cssplit" {
+			// the same code space written as two ranges of the same width
+			mid := uint32(uint64(1)<<(8*uint(w)-1) - 1)
+			lines = append(lines, "2 begincodespacerange", lo+" <"+hexCode(mid, w, lower)+">", "<"+hexCode(mid+1, w, lower)+"> "+hi, "endcodespacerange")
+		} else if format == "nospace" {
 			lines = append(lines, "1 begincodespacerange", lo+hi, "endcodespacerange")
 		} else {
 			lines = append(lines, "1 begincodespacerange", lo+" "+hi, "endcodespacerange")
